@@ -585,6 +585,34 @@ package gabi
 //@   ensures[C14] samechallenge: err == nil ==> forall i in 0..len(proofPs) :: old(proofPs[i] != nil ==> proofPs[i].SResponse != nil && (proofPs[i].P == nil ==> proofPs[i].C != nil && val(proofPs[i].C) == val(challenge)))
 //@   loop 0 invariant 0 <= $i && $i <= len(proofPs) && forall j in 0..$i :: proofPs[j] != nil ==> proofPs[j].SResponse != nil && (proofPs[j].P == nil ==> proofPs[j].C != nil && val(proofPs[j].C) == val(challenge))
 
+//@ # the user's commitment U = S^v' * R_0^secret * prod_{i blind} R_i^{m_i} mod N (product over the map of blind shares, reduced once at the end)
+//@ mapfold ucommitraw(pk, secret, vPrime, msg, k) := pow(val(pk.R[k]), val(msg[k]), val(pk.N)) op mul from prod(pow(val(pk.S), val(vPrime), val(pk.N)), pow(val(pk.R[0]), val(secret), val(pk.N)))
+//@ func userCommitment
+//@   property C06
+//@   safety
+//@   requires wfpk(pk) && secret != nil && val(secret) >= 0 && vPrime != nil && val(vPrime) >= 0 && forall k in dom(msg) :: 0 <= k && k < len(pk.R) && msg[k] != nil && val(msg[k]) >= 0
+//@   ensures[C06] value: U != nil && fresh(U) && val(U) == rem(old(ucommitraw(pk, secret, vPrime, msg, msg)), val(pk.N))
+//@   modifies nothing
+//@   loop 0 invariant U != nil && fresh(U) && val(U) == old(ucommitraw(pk, secret, vPrime, msg))
+
+//@ # the holder's builder for issuance: blind indices inside the key (never the secret-key base), one fresh share and one fresh randomizer per blind index
+//@ func NewCredentialBuilder
+//@   property C06
+//@   safety
+//@   requires wfpk(pk) && secret != nil && val(secret) >= 0 && (keyshareP != nil ==> true) && pk.Params.Lm >= 2 && pk.Params.Lm <= 65536 && pk.Params.LvPrime <= 65536 && pk.Params.LvPrimeCommit <= 65536 && pk.Params.LmCommit <= 65536
+//@   ensures[C06] blind: err == nil ==> forall j in 0..len(blind) :: 0 <= blind[j] && blind[j] + 1 < len(pk.R) && in(result0.mUser, blind[j] + 1) && result0.mUser[blind[j] + 1] != nil && in(result0.mUserCommit, blind[j] + 1) && result0.mUserCommit[blind[j] + 1] != nil
+//@   ensures[C06] onlyblind: err == nil ==> forall k in dom(result0.mUser) :: exists j in 0..len(blind) :: blind[j] + 1 == k
+//@   ensures builder: err == nil ==> result0 != nil && fresh(result0) && result0.pk == pk && result0.context == context && result0.secret == secret && result0.nonce2 == nonce2 && result0.keyshareP == keyshareP && result0.u != nil && result0.vPrime != nil && result0.vPrimeCommit != nil
+//@   ensures fail: err != nil ==> result0 == nil
+//@   modifies nothing
+//@   loop 0 invariant 0 <= $i && $i <= len(blind) && mUser != nil && fresh(mUser) && vPrime != nil && val(vPrime) >= 0
+//@   loop 0 invariant forall j in 0..$i :: 0 <= blind[j] && blind[j] + 1 < len(pk.R) && in(mUser, blind[j] + 1)
+//@   loop 0 invariant forall k in dom(mUser) :: mUser[k] != nil && val(mUser[k]) >= 0 && 1 <= k && k < len(pk.R)
+//@   loop 0 invariant forall k in dom(mUser) :: exists j in 0..$i :: blind[j] + 1 == k
+//@   loop 0 modifies mapof(mUser)
+//@   loop 1 invariant mUserCommit != nil && fresh(mUserCommit) && mUser != nil && fresh(mUser) && U != nil && vPrime != nil && vPrimeCommit != nil && (forall k in dom(mUser) :: seen(k) ==> in(mUserCommit, k) && mUserCommit[k] != nil) && (forall j in 0..len(blind) :: 0 <= blind[j] && blind[j] + 1 < len(pk.R) && in(mUser, blind[j] + 1)) && (forall k in dom(mUser) :: mUser[k] != nil) && forall k in dom(mUser) :: exists j in 0..len(blind) :: blind[j] + 1 == k
+//@   loop 1 modifies mapof(mUserCommit)
+
 //@ # ---- keyshare server, first message (C14): one randomizer for all keys, short enough for the smallest key ----
 //@ func NewKeyshareCommitments
 //@   property C14
